@@ -287,6 +287,79 @@ example : jitter ⟨1000000000, 10⟩ (initRun ⟨1000000000, 10⟩ 2)
       1000 1000 = 40 := by
   decide
 
+/-! ### calls that sit blocked: where the reservation is stamped -/
+
+/-- **The bound for reservations stamped in order.** Whatever the calls are and however long each
+    sat blocked in its socket: when every reservation that reaches the shared limiter is stamped at
+    or after the limiter's last event (each caller reads its own "now" when it reserves - what
+    `Conn.Read/Write` do by calling `WaitN` after the I/O returned, up to the reordering of F28),
+    the bound holds without any jitter term. -/
+theorem c20_bound_holds_for_monotone_reservation_times (l : Limiter) (w k : Nat) (ops : List BOp) (t0 t1 : Nat)
+    (hR : 0 < l.rate) (hw : w ≤ l.burst) (hv : validJ l w (initRun l k) ops = true)
+    (hm : stampsMonotone l (initRun l k) ops = true) (h01 : t0 ≤ t1) :
+    bytesIn ops t0 t1 * nsPerSec ≤ (l.burst + k * w) * nsPerSec + l.rate * (t1 - t0 + 1) := by
+  have := bound_jitter l w k t0 t1 hR hw h01 ops hv
+  rwa [monotone_no_jitter l ops _ hm, Nat.add_zero] at this
+
+/-- a time-ordered schedule stamps every reservation at or after the limiter's last event -/
+theorem c20_ordered_stamps_are_monotone (l : Limiter) (w k : Nat) (ops : List BOp)
+    (hv : validB l w (initRun l k) ops = true) : stampsMonotone l (initRun l k) ops = true :=
+  ordered_monotone l w ops (initRun l k) (Nat.le_refl _) hv
+
+/-- **Blocked calls, the code's stamp.** Calls with a start and a completion time (blocked in
+    between for as long as the peer likes), reservations stamped when the I/O returned
+    (`connStampsAtStart = false`): the stamps are monotone and the bytes whose I/O completed in
+    `[t₀,t₁]` obey the bound - the time a call sat blocked does not appear in it. -/
+theorem c20_return_stamped_calls_keep_bound (l : Limiter) (w k : Nat) (ops : List SOp) (t0 t1 : Nat)
+    (hR : 0 < l.rate) (hw : w ≤ l.burst)
+    (hv : validB l w (initRun l k) (ops.map (SOp.res connStampsAtStart)) = true) (h01 : t0 ≤ t1) :
+    stampsMonotone l (initRun l k) (ops.map (SOp.res connStampsAtStart)) = true ∧
+    bytesDone ops t0 t1 * nsPerSec ≤ (l.burst + k * w) * nsPerSec + l.rate * (t1 - t0 + 1) := by
+  refine ⟨ordered_monotone l w _ (initRun l k) (Nat.le_refl _) hv, ?_⟩
+  rw [bytesDone_eq]
+  have := bound_nat l w t0 t1 hR hw h01 _ (initRun l k) (inv_init l w k) hv
+  rwa [initRun_len] at this
+
+/-- The bound for reservations stamped with the time the call was ENTERED (calls listed in the order
+    their I/O completes, a connection's next call entered after its previous I/O completed and after
+    the previous reservation could act).  **False** (`c20_stale_stamp_recredits_interval`): the stamp
+    of a call that sat blocked lies before the limiter's last event, `reserveN` moves `last` back to
+    it and the next reservation is credited the blocked interval a second time. -/
+def c20_start_stamp_full_statement : Prop :=
+  ∀ (l : Limiter) (w k : Nat) (ops : List SOp) (t0 t1 : Nat),
+    0 < l.rate → w ≤ l.burst → doneOrdered 0 ops = true → startsAfterDone ops = true →
+    validJ l w (initRun l k) (ops.map (SOp.res true)) = true → t0 ≤ t1 →
+    bytesDone ops t0 t1 * nsPerSec ≤ (l.burst + k * w) * nsPerSec + l.rate * (t1 - t0 + 1)
+
+/-- rate 10 B/s, burst 10 B, two connections: connection 0 is saturated with 10-byte calls,
+    connection 1's peer sends one byte every 2 s (its call is entered at 0 resp. 2 s and completes at
+    2 s resp. 4 s). -/
+def staleSched : List SOp :=
+  [⟨0, 0, 0, 10⟩, ⟨0, 0, 0, 10⟩, ⟨1000000000, 1000000000, 0, 10⟩, ⟨2000000000, 2000000000, 0, 10⟩,
+   ⟨0, 2000000000, 1, 1⟩,
+   ⟨3000000000, 3000000000, 0, 10⟩, ⟨3000000000, 3000000000, 0, 10⟩, ⟨4000000000, 4000000000, 0, 10⟩,
+   ⟨2000000000, 4000000000, 1, 1⟩,
+   ⟨5000000000, 5000000000, 0, 10⟩, ⟨5000000000, 5000000000, 0, 10⟩]
+
+/-- stamped with the call's start, each return of the blocked call hands the busy connection
+    `R × 2 s = 20` bytes it had been credited already: 92 bytes complete within `[0, 5 s]`, the bound
+    allows `10 + 2·10 + 10·5 = 80`. -/
+theorem c20_stale_stamp_recredits_interval : ¬ c20_start_stamp_full_statement := by
+  intro h
+  have := h ⟨10, 10⟩ 10 2 staleSched 0 5000000000 (by decide) (by decide) (by decide) (by decide) (by decide) (by decide)
+  revert this
+  decide
+
+/-- the witness in detail: 92 bytes; the start stamps are not monotone, they move the limiter's clock
+    back by 2 s twice; the busy connection's calls return after 0, 1, 2, 3, 3, 4, 5, 5, 6 s (stamped at
+    the I/O's return the fifth of them would return after 4 s). -/
+example : bytesDone staleSched 0 5000000000 = 92 ∧
+    stampsMonotone ⟨10, 10⟩ (initRun ⟨10, 10⟩ 2) (staleSched.map (SOp.res true)) = false ∧
+    jitter ⟨10, 10⟩ (initRun ⟨10, 10⟩ 2) (staleSched.map (SOp.res true)) = 4000000000 ∧
+    retsB ⟨10, 10⟩ (initRun ⟨10, 10⟩ 2) (staleSched.map (SOp.res true)) =
+      [0, 1000000000, 2000000000, 3000000000, 1100000000, 3000000000, 4000000000, 5000000000, 3100000000, 5000000000, 6000000000] := by
+  decide
+
 /-! ### deadlines do not shorten the wait -/
 
 /-- `Conn.Read/Write` wait for their tokens whatever deadline is armed on the connection: the call
